@@ -206,7 +206,7 @@ def r3_identity(P, rep, ctx):
     if len(saves) != 1:
         return
     ubv = saves[0].func.value.id
-    ubdefs = [v for k, v in defs.get(ubv, []) if v is not None]
+    ubdefs = [v for i_, v, b_ in F(ctx, fi).stores(ubv)]  # locals expanded (`latest = self._ublock(-1); ub = latest.copy(..)`)
     ok = False
     detail = [norm(d) for d in ubdefs]
     if len(ubdefs) == 1 and isinstance(ubdefs[0], ast.Call):
